@@ -9,13 +9,14 @@ from mc.gen import render
 from mc.ref import asm as refasm
 from mc.ref import bus as refbus
 from mc.ref import expr as rx
+from mc.ref import ips as refips
 
 ID = "C02"
 LEVEL = "model_checking"
 LEVEL_TEXT = ("Explicit enumeration of all statement sequences of length 3 (thorough: 4) over an alphabet with one representative per "
               "size mechanism (explicit suffix; width inferred from a literal, a := constant, a backward/forward label, a name shadowed "
               "by an inner label or `=` defined later/earlier; data lists; .ascii; .text; .incbin of 0/1/5/65541 bytes (the last one crosses two bank ends); macro, loop, "
-              "conditional, block, named scope; *= and @= moves) x 2 start positions (window start, 3 bytes before a bank end) x "
+              "conditional, block, named scope, .include_ips; *= and @= moves) x 2 start positions (window start, 3 bytes before a bank end) x "
               "LoROM/HiROM. A label and a unique 4-byte marker follow every statement; the marker's file offset in the real output, "
               "pulled back through the bus model, is where the next byte really went and must equal the label's value from "
               "get_all_labels() and from a `.dl label` table. Tests assert three or four labels in straight-line programs.")
@@ -42,7 +43,7 @@ TABLE = "10=a\n1112=ab\n20=b\n"
 KINDS = ["ins-explicit", "ins-lit1", "ins-lit2", "ins-lit3", "ins-const", "ins-imm-const", "ins-back", "ins-fwd",
          "sh-later-label", "sh-earlier-label", "sh-later-eq", "sh-earlier-eq", "sh-scope-label", "sh-macro-label",
          "db1", "dw2", "dl3", "ptr-back", "ascii", "text", "incbin0", "incbin1", "incbin5",
-         "macro-narrow", "macro-wide", "for", "if", "block", "nop", "org", "org-zero", "reloc-rom", "reloc-ram"]
+         "macro-narrow", "macro-wide", "for", "if", "block", "nop", "incips", "org", "org-zero", "reloc-rom", "reloc-ram"]
 VARIABLE = {"ins-lit1", "ins-lit2", "ins-lit3", "ins-const", "ins-imm-const", "ins-back", "sh-later-label", "sh-earlier-label",
             "sh-later-eq", "sh-earlier-eq", "sh-scope-label", "sh-macro-label", "text", "incbin0", "incbin1", "incbin5", "incbin65541",
             "macro-narrow", "macro-wide", "for", "if"}
@@ -150,6 +151,8 @@ def stmt(kind, i, pl):
         return [("block", [("data", "db", [N(1)]), ("label", "inner"), ("data", "dw", [S("inner")])])]
     if kind == "nop":
         return [("ins", "nop", "", None, None)]
+    if kind == "incips":
+        return [("incips", "far.ips", N(0x10))]  # emits nothing itself; its record goes to a far-away offset
     if kind == "org":
         return [("org", N(pl["other"] + 0x100 * i))]
     if kind == "org-zero":
@@ -175,7 +178,7 @@ def build(busname, si, kinds):
         ("macro", "msh", [], [("ins", "lda", "", DIRECT, S("sha")), ("label", "sha"), ("data", "db", [N(3)])]),
         ("org", N(start)), ("label", "Lstart"), marker(0x7F),
     ]
-    files = {"t.tbl": TABLE}
+    files = {"t.tbl": TABLE, "far.ips": refips.build([(0x3F0000, b"\x01\x02\x03", "plain")])}
     for i, k in enumerate(kinds):
         prog += stmt(k, i, pl)
         if k.startswith("incbin"):
